@@ -437,4 +437,56 @@ theorem namesMapOf_get (files : List FileData) (o : Nat) (c : Bytes) (cap : Nat)
   have := key files.reverse
   rwa [List.reverse_reverse] at this
 
+/-! ### `find_content` -/
+
+/-- What `find_content` reports: the cells it stored into, and the limit of the `Take` it returns. -/
+def fcRes (r : Rs.Take × Rs.Stores) : Rs.Stores × UInt64 := (r.2, r.1.limit)
+
+/-- `find_content`: same I/O (seek to the local header, signature, skip 22, the two LOCAL lengths, seek to the
+data), same failure points - including the overflow panic of `header_start + 30 + n + m` -, `data_start` stored
+into the entry, and a `Take` limited to the entry's `compressed_size`. -/
+theorem tie_find_content (data : Gen.ZipFileData) :
+    fcRes <$> Gen.find_content data =
+      (fun ds => ([("data.data_start", UInt64.ofNat ds)], data.compressed_size)) <$>
+        Model.findContent (dataOf data) := by
+  unfold Gen.find_content Model.findContent
+  have h22 : (22 : Int64).toInt = 22 := by decide
+  have hA : Rs.Arith.add (4 : UInt64) (22 : UInt64) = some 26 := by decide
+  have hB : Rs.Arith.add (26 : UInt64) (2 : UInt64) = some 28 := by decide
+  have hC : Rs.Arith.add (28 : UInt64) (2 : UInt64) = some 30 := by decide
+  have hhs : (dataOf data).headerStart = data.header_start := rfl
+  have hsig : Gen.LOCAL_FILE_HEADER_SIGNATURE = LOCAL_SIG := rfl
+  msimp [h22, hhs, hsig]
+  refine bind_congr fun _ => bind_congr fun sig => ?_
+  by_cases hs : (sig != LOCAL_SIG) = true
+  · rw [if_pos hs, if_pos hs]
+  · rw [if_neg hs, if_neg hs]
+    refine bind_congr fun _ => bind_congr fun n => bind_congr fun m => ?_
+    rw [hA]; msimp; rw [hB]; msimp; rw [hC]; msimp
+    have e30 : (30 : UInt64).toNat = 30 := by decide
+    have hn := as_u16_u64_toNat n
+    have hm := as_u16_u64_toNat m
+    by_cases h1 : data.header_start.toNat + (30 : UInt64).toNat < 18446744073709551616
+    · obtain ⟨a1, v1⟩ := add_some _ _ h1
+      rw [a1]; msimp
+      by_cases h2 : (data.header_start + 30).toNat + (Rs.as' UInt64 n).toNat < 18446744073709551616
+      · obtain ⟨a2, v2⟩ := add_some _ _ h2
+        rw [a2]; msimp
+        by_cases h3 : (data.header_start + 30 + Rs.as' UInt64 n).toNat + (Rs.as' UInt64 m).toNat
+            < 18446744073709551616
+        · obtain ⟨a3, v3⟩ := add_some _ _ h3
+          rw [a3, if_neg (by omega)]
+          msimp
+          have hds : (data.header_start + 30 + Rs.as' UInt64 n + Rs.as' UInt64 m).toNat =
+              data.header_start.toNat + 30 + n.toNat + m.toNat := by omega
+          rw [hds]
+          refine bind_congr fun _ => ?_
+          simp only [fcRes, Rs.R.take, ← hds, UInt64.ofNat_toNat, List.nil_append]
+        · rw [add_none _ _ h3, if_pos (by omega)]
+          rfl
+      · rw [add_none _ _ h2, if_pos (by omega)]
+        rfl
+    · rw [add_none _ _ h1, if_pos (by omega)]
+      rfl
+
 end ZipVerif.Tie.ReaderGlue
